@@ -1789,7 +1789,11 @@ impl SocketAddress for unix::net::SocketAddr {
         let family = unsafe { ptr::addr_of!((*storage.as_ptr()).sun_family).read() };
         debug_assert!(family == libc::AF_UNIX as libc::sa_family_t);
         let path_ptr = unsafe { ptr::addr_of!((*storage.as_ptr()).sun_path) };
-        let length = length as usize - (path_ptr.addr() - storage.as_ptr().addr());
+        // NOTE: for a path that fills `sun_path` completely the kernel reports
+        // a length one larger than the storage (room for a null byte it
+        // couldn't write, see unix(7)), don't read past the storage.
+        let length = (length as usize).min(size_of::<Self::Storage>());
+        let length = length - (path_ptr.addr() - storage.as_ptr().addr());
         // SAFETY: the kernel ensures that at least `length` bytes are
         // initialised.
         let path = unsafe { slice::from_raw_parts::<u8>(path_ptr.cast(), length) };
